@@ -31,6 +31,22 @@ type Handler = Box<dyn FnMut(&str) -> FailAction>;
 
 thread_local! {
     static HANDLER: RefCell<Option<Handler>> = const { RefCell::new(None) };
+    static NEXT_VERSION_ID: std::cell::Cell<Option<u128>> = const { std::cell::Cell::new(None) };
+}
+
+/// Make the object-store server of the calling thread issue counter-based version ids starting
+/// at `start` (or random ones again with `None`), so that explorations are replayable.
+pub fn set_version_id_counter(start: Option<u128>) {
+    NEXT_VERSION_ID.with(|c| c.set(start));
+}
+
+/// The next counter-based version id of the calling thread, if a counter is installed.
+pub fn next_version_id() -> Option<uuid::Uuid> {
+    NEXT_VERSION_ID.with(|c| {
+        let n = c.get()?;
+        c.set(Some(n + 1));
+        Some(uuid::Uuid::from_u128(0xC10D_0000_0000_0000_0000_0000_0000_0000u128 + n))
+    })
 }
 
 /// Install (or remove) the failpoint handler of the calling thread.
